@@ -107,6 +107,13 @@ package calendar
 //@   domain y 1 9998
 //@   checked_by tables
 
+//@ # T11 tables of adjacent years give the same instant for the terms they share
+//@ axiom termShareAx(y int) [C03]
+//@   requires 1 <= y && y <= 9997
+//@   ensures jq(y, 24) == jq(y+1, 0) && all(0, 5, func(r int) bool { return jq(y, 25+r) == jq(y+1, 1+r) })
+//@   domain y 1 9997
+//@   checked_by tables
+
 //@ # ================================================================ LunarMonth / LunarYear objects
 
 //@ type LunarMonth established_by NewLunarMonth
@@ -194,7 +201,7 @@ package calendar
 //@ # the sixteen Jie entries (even positions of the table) are in strictly increasing calendar order, and the
 //@ # entries whose civil year is fixed lie in it (T12): Lichun (4) in year y, Dongzhi (1) in y-1, DONG_ZHI (25) in y
 //@ spec func termsOrdered(l *Lunar, y int) bool
-//@   = all(0, 29, func(k int) bool { return instBefore(jqs(l, k), jqs(l, k+1)) && !dayBefore(jqs(l, k+1), jqs(l, k)) }) &&
+//@   = all(0, 29, func(k int) bool { return instBefore(jqs(l, k), jqs(l, k+1)) && dayBefore(jqs(l, k), jqs(l, k+1)) }) &&
 //@     all(0, 14, func(t int) bool { return dayBefore(jqs(l, 2*t), jqs(l, 2*t+2)) }) &&
 //@     jqs(l, 4).year == y && jqs(l, 1).year == y-1 && jqs(l, 0).year == y-1 && jqs(l, 25).year == y && jqs(l, 28).year == y+1
 
@@ -467,3 +474,148 @@ package calendar
 //@   ensures midx(y, j1) < midx(y, j2) || (midx(y, j1) == midx(y, j2) && j1-mFat(y, midx(y, j1)) < j2-mFat(y, midx(y, j2)))
 //@   ensures mYat(y, midx(y, j1)) <= mYat(y, midx(y, j2))
 //@   use tableAx(y)
+
+//@ # ================================================================ C03: previous / next / current term queries
+//@ # JIE = even table positions (0, 2, .., 30), QI = odd positions; all 31 for the JieQi variants.
+
+//@ # next: the earliest entry strictly after the moment; nil iff there is none
+//@ ghost func nextJieRule(l *Lunar) [C03]
+//@   body
+//@     r := l.GetNextJie()
+//@     assert((r == nil) == all(0, 15, func(t int) bool { return !instBefore(l.solar, jqs(l, 2*t)) }))
+//@     assert(implies(r != nil, instBefore(l.solar, r.solar) && exists(0, 15, func(t int) bool { return ikey(r.solar) == ikey(jqs(l, 2*t)) })))
+//@     assert(implies(r != nil, all(0, 15, func(t int) bool { return implies(instBefore(l.solar, jqs(l, 2*t)), !instBefore(jqs(l, 2*t), r.solar)) })))
+//@     assert(implies(r != nil, r.jie && !r.qi))
+
+//@ ghost func nextQiRule(l *Lunar) [C03]
+//@   body
+//@     r := l.GetNextQi()
+//@     assert((r == nil) == all(0, 14, func(t int) bool { return !instBefore(l.solar, jqs(l, 2*t+1)) }))
+//@     assert(implies(r != nil, instBefore(l.solar, r.solar) && exists(0, 14, func(t int) bool { return ikey(r.solar) == ikey(jqs(l, 2*t+1)) })))
+//@     assert(implies(r != nil, all(0, 14, func(t int) bool { return implies(instBefore(l.solar, jqs(l, 2*t+1)), !instBefore(jqs(l, 2*t+1), r.solar)) })))
+//@     assert(implies(r != nil, r.qi && !r.jie))
+
+//@ ghost func nextJieQiRule(l *Lunar) [C03]
+//@   body
+//@     r := l.GetNextJieQi()
+//@     assert((r == nil) == all(0, 30, func(k int) bool { return !instBefore(l.solar, jqs(l, k)) }))
+//@     assert(implies(r != nil, instBefore(l.solar, r.solar) && exists(0, 30, func(k int) bool { return ikey(r.solar) == ikey(jqs(l, k)) })))
+//@     assert(implies(r != nil, all(0, 30, func(k int) bool { return implies(instBefore(l.solar, jqs(l, k)), !instBefore(jqs(l, k), r.solar)) })))
+
+//@ # previous: the latest entry at or before the moment; nil iff there is none
+//@ ghost func prevJieRule(l *Lunar) [C03]
+//@   body
+//@     r := l.GetPrevJie()
+//@     assert((r == nil) == all(0, 15, func(t int) bool { return instBefore(l.solar, jqs(l, 2*t)) }))
+//@     assert(implies(r != nil, !instBefore(l.solar, r.solar) && exists(0, 15, func(t int) bool { return ikey(r.solar) == ikey(jqs(l, 2*t)) })))
+//@     assert(implies(r != nil, all(0, 15, func(t int) bool { return implies(!instBefore(l.solar, jqs(l, 2*t)), !instBefore(r.solar, jqs(l, 2*t))) })))
+//@     assert(r != nil)
+
+//@ ghost func prevQiRule(l *Lunar) [C03]
+//@   body
+//@     r := l.GetPrevQi()
+//@     assert((r == nil) == all(0, 14, func(t int) bool { return instBefore(l.solar, jqs(l, 2*t+1)) }))
+//@     assert(implies(r != nil, !instBefore(l.solar, r.solar) && exists(0, 14, func(t int) bool { return ikey(r.solar) == ikey(jqs(l, 2*t+1)) })))
+//@     assert(implies(r != nil, all(0, 14, func(t int) bool { return implies(!instBefore(l.solar, jqs(l, 2*t+1)), !instBefore(r.solar, jqs(l, 2*t+1))) })))
+
+//@ ghost func prevJieQiRule(l *Lunar) [C03]
+//@   body
+//@     r := l.GetPrevJieQi()
+//@     assert((r == nil) == all(0, 30, func(k int) bool { return instBefore(l.solar, jqs(l, k)) }))
+//@     assert(implies(r != nil, !instBefore(l.solar, r.solar) && exists(0, 30, func(k int) bool { return ikey(r.solar) == ikey(jqs(l, k)) })))
+//@     assert(implies(r != nil, all(0, 30, func(k int) bool { return implies(!instBefore(l.solar, jqs(l, k)), !instBefore(r.solar, jqs(l, k))) })))
+
+//@ # whole-day variants compare calendar days: next = first entry on a later day, previous = last entry on this day or earlier
+//@ ghost func wholeDayRules(l *Lunar) [C03]
+//@   body
+//@     n := l.GetNextJieQiByWholeDay(true)
+//@     assert((n == nil) == all(0, 30, func(k int) bool { return !dayBefore(l.solar, jqs(l, k)) }))
+//@     assert(implies(n != nil, dayBefore(l.solar, n.solar) && all(0, 30, func(k int) bool { return implies(dayBefore(l.solar, jqs(l, k)), !dayBefore(jqs(l, k), n.solar)) })))
+//@     p := l.GetPrevJieQiByWholeDay(true)
+//@     assert((p == nil) == all(0, 30, func(k int) bool { return dayBefore(l.solar, jqs(l, k)) }))
+//@     assert(implies(p != nil, !dayBefore(l.solar, p.solar) && all(0, 30, func(k int) bool { return implies(!dayBefore(l.solar, jqs(l, k)), !dayBefore(p.solar, jqs(l, k))) })))
+
+//@ # the term named for a day is the one whose instant falls on that civil day (and none otherwise)
+//@ ghost func currentTermRule(l *Lunar) [C03]
+//@   body
+//@     name := l.GetJieQi()
+//@     assert((name == "") == all(0, 30, func(k int) bool { return !sameDay(jqs(l, k), l.solar) }))
+//@     assert(all(0, 30, func(k int) bool { return implies(sameDay(jqs(l, k), l.solar), name == convertJieQi(JIE_QI_IN_USE[k])) }))
+//@     jie := l.GetJie()
+//@     assert(all(0, 15, func(t int) bool { return implies(sameDay(jqs(l, 2*t), l.solar), jie == convertJieQi(JIE_QI_IN_USE[2*t])) }))
+//@     assert((jie == "") == all(0, 15, func(t int) bool { return !sameDay(jqs(l, 2*t), l.solar) }))
+//@     qi := l.GetQi()
+//@     assert(all(0, 14, func(t int) bool { return implies(sameDay(jqs(l, 2*t+1), l.solar), qi == convertJieQi(JIE_QI_IN_USE[2*t+1])) }))
+//@     assert((qi == "") == all(0, 14, func(t int) bool { return !sameDay(jqs(l, 2*t+1), l.solar) }))
+//@     c := l.GetCurrentJieQi()
+//@     assert((c == nil) == (name == ""))
+
+//@ # ================================================================ C05 lemmas over the constructors
+
+//@ # the day pillar advances by exactly one step of the 60-cycle per civil day, without a break (1582 switch included)
+//@ ghost func dayPillarCycle(s *Solar) [C05]
+//@   requires 1 <= s.year && s.year <= 9998 && sjdn(s)+1 <= jdn(9998, 12, 31)
+//@   body
+//@     yearOfDate(9998, 12, 31)
+//@     yearOfDate(s.year, s.month, s.day)
+//@     yOfMono(sjdn(s), sjdn(s)+1)
+//@     yOfMono(sjdn(s)+1, jdn(9998, 12, 31))
+//@     a := s.GetLunar()
+//@     t := s.NextDay(1)
+//@     b := t.GetLunar()
+//@     assert(b.dayGanIndex == modf(a.dayGanIndex+1, 10) && b.dayZhiIndex == modf(a.dayZhiIndex+1, 12))
+//@     assert(modf(a.dayGanIndex, 2) == modf(a.dayZhiIndex, 2) && 0 <= a.dayGanIndex && a.dayGanIndex <= 9 && 0 <= a.dayZhiIndex && a.dayZhiIndex <= 11)
+//@     assert(modf(a.dayGanIndexExact, 2) == modf(a.dayZhiIndexExact, 2) && 0 <= a.dayGanIndexExact && a.dayGanIndexExact <= 9 && 0 <= a.dayZhiIndexExact && a.dayZhiIndexExact <= 11)
+
+//@ # hour pillar: branch fixed by the two-hour slot, stem by the (early-rat) day stem; 23:00-23:59 belongs to the next
+//@ # day in the early-rat convention and to the same day in the late-rat one
+//@ ghost func hourPillarRule(s *Solar) [C05]
+//@   requires 1 <= s.year && s.year <= 9998
+//@   body
+//@     a := s.GetLunar()
+//@     assert(a.timeZhiIndex == modf(divf(s.hour+1, 2), 12) && 0 <= a.timeGanIndex && a.timeGanIndex <= 9)
+//@     assert(a.timeGanIndex == modf(2*a.dayGanIndexExact+a.timeZhiIndex, 10))
+//@     assert(modf(a.timeGanIndex, 2) == modf(a.timeZhiIndex, 2))
+//@     assert(implies(s.hour == 23, a.dayGanIndexExact == modf(a.dayGanIndex+1, 10) && a.dayZhiIndexExact == modf(a.dayZhiIndex+1, 12)))
+//@     assert(implies(s.hour != 23, a.dayGanIndexExact == a.dayGanIndex && a.dayZhiIndexExact == a.dayZhiIndex))
+//@     assert(a.dayGanIndexExact2 == a.dayGanIndex && a.dayZhiIndexExact2 == a.dayZhiIndex)
+
+//@ # year and month pillars are valid stem-branch pairs and change exactly at their change-over points
+//@ ghost func yearMonthPillarRule(s *Solar) [C05]
+//@   requires 1 <= s.year && s.year <= 9998
+//@   body
+//@     a := s.GetLunar()
+//@     assert(a.yearGanIndex == modf(a.year-4, 10) && a.yearZhiIndex == modf(a.year-4, 12))
+//@     assert(implies(a.year <= s.year, a.yearGanIndexByLiChun == modf(s.year-4-ite(dayBefore(s, jqs(a, 4)), 1, 0), 10) && a.yearZhiIndexByLiChun == modf(s.year-4-ite(dayBefore(s, jqs(a, 4)), 1, 0), 12)))
+//@     assert(implies(a.year <= s.year, a.yearGanIndexExact == modf(s.year-4-ite(instBefore(s, jqs(a, 4)), 1, 0), 10) && a.yearZhiIndexExact == modf(s.year-4-ite(instBefore(s, jqs(a, 4)), 1, 0), 12)))
+//@     assert(implies(a.year <= s.year, modf(a.monthGanIndex, 2) == modf(a.monthZhiIndex, 2) && modf(a.monthGanIndexExact, 2) == modf(a.monthZhiIndexExact, 2)))
+//@     assert(implies(a.year <= s.year, a.monthZhiIndex == modf(jieCountDay(a)-1, 12) && a.monthZhiIndexExact == modf(jieCountExact(a)-1, 12)))
+//@     assert(implies(a.year <= s.year && !dayBefore(s, jqs(a, 4)) && dayBefore(s, jqs(a, 6)), a.monthZhiIndex == 2 && a.monthGanIndex == modf(2*a.yearGanIndexByLiChun+2, 10)))
+
+//@ # ================================================================ C17: Taoist and Buddhist dates
+//@ ghost func taoIsLunar(l *Lunar) [C17]
+//@   body
+//@     t := NewTaoFromLunar(l)
+//@     assert(t.GetYear() == l.year+2697 && t.GetMonth() == l.month && t.GetDay() == l.day)
+//@     assert(sameSolar(t.GetLunar().solar, l.solar))
+
+//@ ghost func fotoIsLunar(l *Lunar) [C17]
+//@   body
+//@     f := NewFotoFromLunar(l)
+//@     assert(f.GetYear() == l.year+544 && f.GetMonth() == l.month && f.GetDay() == l.day)
+//@     assert(sameSolar(f.GetLunar().solar, l.solar))
+
+//@ # constructing from year, month, day, time yields the same moment as the corresponding lunar date and converts back
+//@ ghost func taoRoundTrip(y int, m int, d int, h int, mi int, sec int) [C17 C07]
+//@   requires 2 <= y-2697 && y-2697 <= 9997 && lunarExists(y-2697, m, d) && validHms(h, mi, sec)
+//@   body
+//@     t := NewTao(y, m, d, h, mi, sec)
+//@     assert(t.GetYear() == y && t.GetMonth() == m && t.GetDay() == d)
+//@     assert(sjdn(t.GetLunar().solar) == lunarJdn(y-2697, m, d) && t.GetLunar().hour == h && t.GetLunar().minute == mi && t.GetLunar().second == sec)
+
+//@ ghost func fotoRoundTrip(y int, m int, d int, h int, mi int, sec int) [C17 C07]
+//@   requires 2 <= y-544 && y-544 <= 9997 && lunarExists(y-544, m, d) && validHms(h, mi, sec)
+//@   body
+//@     f := NewFoto(y, m, d, h, mi, sec)
+//@     assert(f.GetYear() == y && f.GetMonth() == m && f.GetDay() == d)
+//@     assert(sjdn(f.GetLunar().solar) == lunarJdn(y-544, m, d) && f.GetLunar().hour == h && f.GetLunar().minute == mi && f.GetLunar().second == sec)
